@@ -117,6 +117,8 @@ func c18PinAtoms() []*ref.Expr {
 		out = append(out, ref.Bin("=", k(), ref.S(l)))
 	}
 	out = append(out, ref.In(k(), ref.S("a"), ref.S("b")), ref.In(k(), ref.S("ab")), ref.In(k(), ref.S("c"), ref.S("a")), ref.In(k(), ref.S("b"), ref.S("zz")))
+	// lists naming a key twice (a repeated key is still one key)
+	out = append(out, ref.In(k(), ref.S("a"), ref.S("a")), ref.In(k(), ref.S("c"), ref.S("a"), ref.S("c")), ref.In(k(), ref.S("b"), ref.S("ab"), ref.S("b"), ref.S("ab")))
 	for _, l := range litsLc {
 		if l != "" {
 			out = append(out, ref.Bin("^=", k(), ref.S(l)))
@@ -160,6 +162,24 @@ func c18Unsat() []*ref.Expr {
 	}
 }
 
+// disjointKeySets: two literal key sets without a common key ("disjoint
+// equalities": the conjunction is unsatisfiable on its face).
+func disjointKeySets(a, b *pin) bool {
+	if a == nil || b == nil || a.Kind != "keys" || b.Kind != "keys" {
+		return false
+	}
+	in := map[string]bool{}
+	for _, k := range a.Keys {
+		in[k] = true
+	}
+	for _, k := range b.Keys {
+		if in[k] {
+			return false
+		}
+	}
+	return true
+}
+
 type c18Shape struct {
 	pred  *ref.Expr
 	pins  []*pin // one per pinning conjunct
@@ -186,7 +206,8 @@ func c18Shapes() []c18Shape {
 	}
 	for _, a := range atoms {
 		for _, b := range atoms {
-			out = append(out, c18Shape{pred: ref.Bin("&", a.Clone(), b.Clone()), pins: []*pin{pinOf(a), pinOf(b)}})
+			pa, pb := pinOf(a), pinOf(b)
+			out = append(out, c18Shape{pred: ref.Bin("&", a.Clone(), b.Clone()), pins: []*pin{pa, pb}, unsat: disjointKeySets(pa, pb)})
 		}
 	}
 	for _, u := range c18Unsat() {
@@ -408,6 +429,13 @@ func c18ShapeOf(pred *ref.Expr) c18Shape {
 				return sh
 			}
 			sh.pins = append(sh.pins, p)
+		}
+	}
+	for i := range sh.pins {
+		for j := i + 1; j < len(sh.pins); j++ {
+			if disjointKeySets(sh.pins[i], sh.pins[j]) {
+				sh.unsat = true
+			}
 		}
 	}
 	return sh
